@@ -212,8 +212,9 @@ def run_cg(case):
             n0 = len(opA.calls)
             cg = m.ConjugateGradient(rec, nreset=case["nreset"])
             E, st = cg(E0, preconditioner=opP)
-    except Exception as e:   # canonical error kind
-        return {"error": type(e).__name__}
+    except Exception as e:   # canonical error kind (the energies seen so far are kept for the rounding-level test)
+        recs = rec.rec if "rec" in locals() else []
+        return {"error": type(e).__name__, "recs": recs, "A": A, "b": b}
     # which A-applications were position re-evaluations (reset branch): calls come as d, [x], d, [x], ...
     calls = opA.calls[n0:]
     return dict(status=int(st), hint=_reason_from_log(tap.msgs), pos=E.position.val.asnumpy().copy(),
@@ -304,7 +305,7 @@ def run_ie(case):
             y = ie.apply(m.makeField(dom, x), case["mode"])
             cap = int(ie.capability)
     except Exception as e:
-        return {"error": type(e).__name__}
+        return {"error": type(e).__name__, "recs": rec.rec if "rec" in locals() else []}
     return dict(y=y.val.asnumpy().copy(), recs=rec.rec, ncalls=len(op.calls), cap=cap,
                 itcount=getattr(real, "_itcount", None), ccount=getattr(real, "_ccount", None),
                 warned=any("Error detected during operator inversion" in s for s in tap.msgs), msgs=tap.msgs,
